@@ -12,7 +12,7 @@ fi
 if [ "$1" != "go" ]; then
   # re-extract only when the model changed
   cd /verif/coq/extract
-  stamp=$(cat ../Base.v ../Crc.v ../Bytes.v ../Record.v ../Flat.v ../Index.v ../Spec.v ../DB.v ../DBInv.v Extract.v LockExtract.v ../Lock.v /verif/ocaml/*.ml | sha256sum | cut -d' ' -f1)
+  stamp=$(cat ../Base.v ../Crc.v ../Bytes.v ../Record.v ../Flat.v ../Index.v ../Spec.v ../DB.v ../DBInv.v ../Bucket.v ../Phys.v ../PhysProofs.v Extract.v LockExtract.v ../Lock.v /verif/ocaml/*.ml | sha256sum | cut -d' ' -f1)
   if [ ! -f /verif/build/ocaml/modelrun ] || [ "$(cat /verif/build/ocaml/stamp 2>/dev/null)" != "$stamp" ]; then
     timeout 600 coqc -Q .. Pogreb Extract.v >/dev/null
     cd /verif/build/ocaml
